@@ -44,7 +44,19 @@ def build(ctx, rng, refworld, n, subdir='queries', int_ids=False, name_offset=0)
 		deco = G.decorate(rng, contigs, lower_frac=rng.choice([0, 0, .3]), n_frac=0)
 		kw = dict(width=rng.choice([60, 70, 80, 13]), crlf=rng.random() < .15, final_newline=rng.random() < .85)
 		plain = G.write_fasta(os.path.join(root, 'plain', stem + ext), deco, gz=False, **kw)
-		gz = G.write_fasta(os.path.join(root, 'packed', 'deep', stem + ext + '.gz'), deco, gz=True, **kw)
+		gzpath = os.path.join(root, 'packed', 'deep', stem + ext + '.gz')
+		if rng.random() < 0.35:
+			# multi-member gzip (what bgzip or `cat a.gz b.gz` produce): members cut at line boundaries
+			raw = G.fasta_bytes(deco, **kw)
+			lines = raw.splitlines(keepends=True)
+			cuts = sorted(rng.sample(range(1, len(lines)), min(len(lines) - 1, rng.randint(1, 3)))) if len(lines) > 1 else []
+			parts, last = [], 0
+			for c in cuts + [len(lines)]:
+				parts.append(b''.join(lines[last:c]))
+				last = c
+			gz = G.write_file(gzpath, b''.join(G.gz_bytes(p) for p in parts if p))
+		else:
+			gz = G.write_fasta(gzpath, deco, gz=True, **kw)
 		pool.genomes.append(dict(stem=stem, ext=ext, contigs=contigs, plain=plain, gz=gz, deco=deco, kw=kw,
 		                         sig=np.asarray(calc_signature(kspec, contigs))))
 	# homonyms: a file in another directory that carries genome i's content under genome j's name, and a
@@ -56,6 +68,10 @@ def build(ctx, rng, refworld, n, subdir='queries', int_ids=False, name_offset=0)
 		j = (i + 1) % n
 		other = pool.genomes[j]
 		g['alias'] = None
+		# a symbolic link with its own name (how workflow managers stage inputs): the label is the link's name
+		g['link'] = os.path.join(root, 'staged', f'input_{i}' + (g['ext'] or '.fa'))
+		os.makedirs(os.path.dirname(g['link']), exist_ok=True)
+		os.symlink(g['plain'], g['link'])
 		if n > 1:
 			g['alias'] = G.write_fasta(os.path.join(root, 'aliases', f'd{i}', other['stem'] + other['ext']), g['deco'], gz=False, **g['kw'])
 			for rel, gz in ((os.path.relpath(other['plain'], root), False), (os.path.relpath(other['gz'], root), True)):
